@@ -12,6 +12,7 @@ import OdeVerif.Model.Graph
 import OdeVerif.Model.MixedIntegrator
 import OdeVerif.Model.Terms
 import OdeVerif.Model.Shapes
+import OdeVerif.Model.Propagator
 
 open Lean
 
@@ -333,6 +334,47 @@ def opSubsys (j : Json) : Except String Json := do
     ("jac_expr", Json.str (stringOfRat (Shapes.jacobianExpr (A.getD i []) x (c.getD i 0))))])
   pure (Json.mkObj [("rows", Json.arr rows.toArray)])
 
+/-! ### C01 / C06 / C08: components and assembly -/
+
+def finFun {α : Type} (n : Nat) (l : List α) (d : α) : Fin n → α := fun i => l.getD i.val d
+def finFun2 {α : Type} (n : Nat) (l : List (List α)) (d : α) : Fin n → Fin n → α := fun i j => (l.getD i.val []).getD j.val d
+
+def opComponents (j : Json) : Except String Json := do
+  let n ← getNat j "n"
+  let A ← getRatMat j "A"
+  let Af : Fin n → Fin n → Rat := finFun2 n A 0
+  let lab := Propagator.label (Propagator.mirror Af)
+  let comps := Propagator.components lab
+  pure (Json.mkObj [
+    ("labels", Json.arr ((List.finRange n).map (fun i => Json.num (JsonNumber.fromNat (lab i)))).toArray),
+    ("ok", Json.bool (Propagator.labelsOk Af lab)),
+    ("components", Json.arr (comps.map (fun c => Json.arr (c.map (fun (i : Fin n) => Json.num (JsonNumber.fromNat i.val))).toArray)).toArray)])
+
+def asmErrJson : Propagator.AsmErr → Json
+  | .nonlinear r => Json.mkObj [("error", Json.str "nonlinear"), ("row", Json.num (JsonNumber.fromNat r))]
+  | .higherOrderInhom r => Json.mkObj [("error", Json.str "higher-order-inhomogeneous"), ("row", Json.num (JsonNumber.fromNat r))]
+  | .dependsOnInhom r c => Json.mkObj [("error", Json.str "depends-on-inhomogeneous"), ("row", Json.num (JsonNumber.fromNat r)), ("col", Json.num (JsonNumber.fromNat c))]
+
+def opAssemble (j : Json) : Except String Json := do
+  let n ← getNat j "n"
+  let A ← getRatMat j "A"; let b ← getRats j "b"; let x ← getRats j "x"; let Pm ← getRatMat j "P"
+  let h ← getRat j "h"
+  let cnz ← j.getObjValAs? (List Bool) "cnz"
+  let order ← j.getObjValAs? (List Nat) "order"
+  let pnz ← j.getObjValAs? (List (List Bool)) "Pnz"
+  let Af : Fin n → Fin n → Rat := finFun2 n A 0
+  let Pf : Fin n → Fin n → Rat := finFun2 n Pm 0
+  match Propagator.assemble Af (finFun n b 0) (finFun n cnz false) (finFun n order 1) (finFun2 n pnz false) with
+  | .error e => pure (asmErrJson e)
+  | .ok rows =>
+    let vals := (List.finRange n).map (fun r => match rows[r.val]? with
+      | some u => stringOfRat (Propagator.evalRow u r Pf h (finFun n x 0))
+      | none => "missing-row")
+    let kinds := rows.map (fun u => match u.inhom with | .none => "none" | .const _ => "const" | .affine _ _ => "affine")
+    pure (Json.mkObj [("values", Json.arr (vals.map Json.str).toArray),
+                      ("cols", Json.arr (rows.map (fun u => Json.arr (u.cols.map (fun (c : Fin n) => Json.num (JsonNumber.fromNat c.val))).toArray)).toArray),
+                      ("kinds", Json.arr (kinds.map Json.str).toArray)])
+
 def dispatch (op : String) (j : Json) : Json :=
   match op with
   | "ping" => Json.mkObj [("pong", j)]
@@ -350,6 +392,8 @@ def dispatch (op : String) (j : Json) : Json :=
   | "split" => run (opSplit j)
   | "param-syms" => run (opParamSyms j)
   | "subsys" => run (opSubsys j)
+  | "components" => run (opComponents j)
+  | "assemble" => run (opAssemble j)
   | _ => jerr ("unknown-op: " ++ op)
 
 end OdeVerif.Driver
